@@ -116,7 +116,19 @@ def r_zipguard_tuple(ck: Checker) -> None:
     var = [lf for lf in tup if lf.assign.get(k_args) == 2 and k_ell is not None and lf.assign.get(k_ell) is True]
     want_var = (f"all((is_instance(_b0, get_args({tp})[0]) for _b0 in {vp}))",)
     ok_var = bool(var) and all(lf.outcome == "return" and lf.value is not None and alpha(lf.value) in want_var for lf in var)
-    if ok_empty and ok_var:
+    derived = None
+    for lf in var:
+        for gen in [g_ for g_ in ast.walk(lf.value) if isinstance(g_, (ast.GeneratorExp, ast.ListComp))] if lf.value is not None else []:
+            it = norm(gen.generators[0].iter)
+            if it not in (vp, f"iter({vp})", f"list({vp})", f"tuple({vp})") and vp in it and "is_instance(" in norm(gen.elt):
+                derived = it
+        for st in lf.stmts:  # the iterated collection is a local derived from the value
+            if isinstance(st, (ast.Assign, ast.AnnAssign)) and st.value is not None and isinstance(st.value, ast.Call) and dotted(st.value.func) in ("set", "frozenset", "dict.fromkeys") \
+                    and st.value.args and norm(st.value.args[0]) == vp:
+                derived = norm(st.value)
+    if derived and not ok_var:
+        ck.violation("R-ZIPGUARD", f, f.node, what, construct=f"is_instance tuple arms: the variadic arm checks the elements of {derived}, not every element of the value (equal items of different type collapse)")
+    elif ok_empty and ok_var:
         ck.holds("R-ZIPGUARD", f, f.node, what, evaluations=len(empty) + len(var))
     elif (empty and not ok_empty and all(lf.val() in ("True", "False") for lf in empty)) or \
             (var and not ok_var and all(not any(isinstance(st, (ast.For, ast.While)) for st in lf.stmts) and
